@@ -87,7 +87,7 @@ class Hexital:
                 indicator.candle_manager = self._candles[indicator.timeframe]
             else:
                 manager = CandleManager(
-                    deepcopy(self._candles[DEFAULT_CANDLES]).candles,
+                    self._raw_candles(),
                     candles_lifespan=self.candles_lifespan,
                     timeframe=indicator.timeframe if indicator.timeframe else self.timeframe,
                     timeframe_fill=self.timeframe_fill,
@@ -97,6 +97,15 @@ class Hexital:
                 indicator.candle_manager = self._candles[manager.name]
 
         return valid_indicators
+
+    def _raw_candles(self) -> List[Candle]:
+        """Copy of the base candles with any candlestick conversion undone"""
+        candles = deepcopy(self._candles[DEFAULT_CANDLES].candles)
+        for candle in candles:
+            candle.recover_clean_values()
+            candle.clean_values = {}
+            candle.reset_candle()
+        return candles
 
     def _build_indicator(self, raw_indicator: dict) -> Indicator:
         analysis_map = PATTERN_MAP | MOVEMENT_MAP
@@ -204,8 +213,10 @@ class Hexital:
         self._indicators.pop(name, None)
 
     def append(self, candles: Candle | List[Candle] | dict | List[dict] | list | List[list]):
-        for candle_manager in self._candles.values():
-            candle_manager.append(candles)
+        for name, candle_manager in self._candles.items():
+            if name != DEFAULT_CANDLES:
+                candle_manager.append(candles)
+        self._candles[DEFAULT_CANDLES].append(candles)
 
         self.calculate()
 
